@@ -260,7 +260,7 @@ func (rc *replayCtx) lit(t types.Type, v *sx, key string) (string, *Term, bool) 
 		var terms []*Term
 		for i := 0; i < u.NumFields(); i++ {
 			s, tm, ok := rc.lit(u.Field(i).Type(), v.list[i+1], "")
-			if !ok {
+			if !ok || tm == nil {
 				return "", nil, false
 			}
 			if u.Field(i).Exported() || u.Field(i).Pkg() == rc.pkg {
